@@ -966,6 +966,8 @@ class Machine(object):
         if kind == "f":
             s = prev + val
             return s if size == 8 else float32_round(s)
+        if kind == "i" and size >= 4 and not -(1 << (8 * size - 1)) <= prev + val < (1 << (8 * size - 1)):
+            self.ub.add("signed-overflow")          # the sum is formed in the output's own signed type (narrower ones are promoted to int)
         return self._convert_int(prev + val, dt)
 
     def _float_to_stack(self, x):
